@@ -29,7 +29,10 @@ def mk_value(I, d, name):
     return enum_variant(I, "RecordValue", "Single", [z3.fpBVToFP(b, z3.Float32())]), b, z3.BoolVal(True)
 
 
-def pcw_scenario(proto, npoints, nan_free=True, fault=False):
+def pcw_scenario(proto, npoints, nan_free=True, fault=False, packet_points=None):
+    """packet_points: overwrite the writer's packet capacity (points per packet) after construction, so that a handful of points
+    exercises the packet-splitting path (intermediate packets carry only complete bytes, the rest follows in later packets).
+    The capacity only steers WHEN write_buffer_to_disk runs; any value >= 1 is one that some prototype produces."""
     def scen(I):
         init_interp(I)
         s = mk_abs_writer(I, fault_at=fresh("fault_at") if fault else None)
@@ -47,6 +50,10 @@ def pcw_scenario(proto, npoints, nan_free=True, fault=False):
         if r.vname != "Ok":
             return s
         s.holder["pw"] = r.fields[0]
+        if packet_points is not None:
+            wn = I.struct_fields["PointCloudWriter"]
+            s.holder["pw"].fields[wn.index("max_points_per_packet")] = U64(packet_points)
+        s.packet_points = packet_points
         pref = Ref(Loc(s.holder, "pw"))
         for k in range(npoints):
             row, raws = [], []
@@ -307,7 +314,15 @@ def _pcw_extra_factory(proto, npoints):
     return extra
 
 
-def _pcw_op_factory(proto):
+PCW_CAP_HELPER = r"""
+#[cfg(test)]
+impl<'a, T: std::io::Read + std::io::Write + std::io::Seek> PointCloudWriter<'a, T> {
+    pub(crate) fn verif_set_capacity(&mut self, n: usize) { self.max_points_per_packet = n; }
+}
+"""
+
+
+def _pcw_op_factory(proto, packet_points=None):
     def op(pre):
         recs = ", ".join("crate::Record { name: crate::RecordName::%s, data_type: %s }" % (nm, rust_dtype(d)) for nm, d in proto)
         adds = ""
@@ -323,11 +338,11 @@ def _pcw_op_factory(proto):
                     items.append("crate::RecordValue::Single(f32::from_bits(%d))" % x)
             adds += "ok &= pw.add_point(vec![%s]).is_ok(); " % ", ".join(items)
         return ("let mut pcs: Vec<crate::PointCloud> = Vec::new(); let mut ok = true; "
-                "{ match crate::pc_writer::PointCloudWriter::new(&mut w, &mut pcs, \"guid\", vec![%s]) { Ok(mut pw) => { %s ok &= pw.finalize().is_ok(); } Err(_) => { ok = false; } } } "
+                "{ match crate::pc_writer::PointCloudWriter::new(&mut w, &mut pcs, \"guid\", vec![%s]) { Ok(mut pw) => { %s %s ok &= pw.finalize().is_ok(); } Err(_) => { ok = false; } } } "
                 "if ok { println!(\"VR res=ok\") } else { println!(\"VR res=err\") } "
                 "if let Some(pc) = pcs.get(0) { println!(\"VR pc_records={} pc_offset={}\", pc.records, pc.file_offset); "
                 "if let Some(b) = &pc.cartesian_bounds { println!(\"VR cb={},{},{},{},{},{}\", b.x_min.unwrap_or(f64::NAN).to_bits(), b.x_max.unwrap_or(f64::NAN).to_bits(), b.y_min.unwrap_or(f64::NAN).to_bits(), b.y_max.unwrap_or(f64::NAN).to_bits(), b.z_min.unwrap_or(f64::NAN).to_bits(), b.z_max.unwrap_or(f64::NAN).to_bits()); } }"
-                % (recs, adds))
+                % (recs, ("pw.verif_set_capacity(%d);" % packet_points) if packet_points is not None else "", adds))
     return op
 
 
@@ -391,6 +406,18 @@ def scenarios(tier="quick"):
             rp = PcwReplay(_pcw_op_factory(proto), _pcw_extra_factory(proto, k), _pcw_patch_factory(proto))
             out.append(Scenario("PointCloudWriter new; %d x add_point; finalize — prototype %s, any values, any writer state" % (k, key),
                                 pcw_scenario(proto, k), pcw_claims, max_paths=600, time_budget=900, replayer=rp))
+    return out
+
+
+def split_scenarios(tier="quick"):
+    """several packets: capacity forced to 1 point per packet, 2 (quick) / 3 (thorough) points"""
+    out = []
+    combos = [("xyz int11/double/const", 2)] if tier == "quick" else [("xyz int11/double/const", 3), ("xyz single/scaled33/int1", 2)]
+    for key, k in combos:
+        proto = PROTOS[key]
+        rp = PcwReplay(_pcw_op_factory(proto, packet_points=1), _pcw_extra_factory(proto, k), _pcw_patch_factory(proto), extra_files={"pc_writer.rs": PCW_CAP_HELPER})
+        out.append(Scenario("PointCloudWriter new; %d x add_point; finalize with 1 point per packet — prototype %s: streams cut across packets" % (k, key),
+                            pcw_scenario(proto, k, packet_points=1), pcw_claims, max_paths=3000, time_budget=1500, replayer=rp))
     return out
 
 
